@@ -68,6 +68,33 @@ class Check:
         self.trusted_base: List[str] = []
         self.checker_cmd = ""
         self.undecided: List[str] = []
+        self.fallbacks: List[tuple] = []
+
+    def shape_fallback(self, rule: str, by, note: str = ""):
+        """`rule` recognises ONE way of writing a clause (a sufficient structural condition, valid for every input); the rules in `by`
+        interpret the same clause's behaviour on enumerated inputs whatever the code looks like.  When `rule` does not recognise the code
+        but every rule in `by` was evaluated and holds, the clause is reported as held on the enumerated inputs only (evidence lists it
+        under decided_on_scenarios_only) instead of as a violation: an unrecognised spelling is not a defect."""
+        self.fallbacks.append((rule, tuple(by), note))
+
+    def _apply_fallbacks(self):
+        moved = []
+        for rule, by, note in self.fallbacks:
+            full = lambda r: r if r.startswith(self.pid + ".") else "%s.%s" % (self.pid, r)
+            decided = True
+            for b in by:
+                obs = [o for o in self.obls if o.rule == full(b)]
+                if not obs or any(o.status != "holds" for o in obs) or any(u.startswith(full(b)) or full(b) in u for u in self.undecided):
+                    decided = False
+            if not decided:
+                continue
+            for o in self.obls:
+                if o.status == "violation" and (o.rule == full(rule) or o.rule.startswith(full(rule) + ":")):
+                    o.status = "holds"
+                    o.detail = "code shape not recognised by this rule (%s); the clause holds on every enumerated scenario of %s%s" % (o.detail[:160], ", ".join(full(b) for b in by), ("; " + note) if note else "")
+                    moved.append(o.key)
+        if moved:
+            self.info["decided_on_scenarios_only"] = moved
 
     # ---- recording
     def ok(self, rule: str, fn: str, construct: str, where: str = "", detail: str = "", nontrivial: bool = True):
@@ -96,6 +123,7 @@ class Check:
 
     # ---- finishing
     def finish(self, prog=None) -> int:
+        self._apply_fallbacks()
         known = load_known().get(self.pid, [])
         known_keys = {k["key"]: k["what"] for k in known}
         violations = []
